@@ -149,7 +149,7 @@ def corpus_cases(weakly):
 
 
 # ------------------------------------------------------------------------------ generators
-def gen_ops_cases(rng, count, weakly, max_atoms=5, max_conds=7, nq=6, prefix="g"):
+def gen_ops_cases(rng, count, weakly, max_atoms=5, max_conds=7, nq=6, prefix="g", partial_sig=False):
     cases = []
     for i in range(count):
         n = rng.randrange(1, max_atoms + 1)
@@ -293,7 +293,7 @@ def gen_ops_cases(rng, count, weakly, max_atoms=5, max_conds=7, nq=6, prefix="g"
             base = [(ks[j], b, a) for j, (_, b, a) in enumerate(base)]
         cs_ = make_case("%s%d" % (prefix, i), n, base, qs, weakly)
         r_ = rng.random()
-        if r_ < 0.08 and cs_["n"] >= 2:
+        if partial_sig and r_ < 0.08 and cs_["n"] >= 2:
             keep = rng.sample(range(cs_["n"]), rng.randrange(1, cs_["n"]))      # a declared signature that leaves atoms out
             cs_["declared"] = [cs_["sig"][j] for j in sorted(keep)]
         elif r_ < 0.2:
